@@ -52,7 +52,7 @@ def call_pool(rng):
         "sock_new %d %d %s" % (sl(), rng.randrange(2), e()), "sock_bad %s" % e(), "sock_listen %d %s" % (sl(), e()),
         "sock_connect %d %d %s" % (sl(), sl(), e()), "sock_connect_refused %d %s" % (sl(), e()), "sock_connect_timeout %d %s" % (sl(), e()),
         "sock_accept %d %d %s" % (sl(), sl(), e()), "sock_local %d %d %s" % (sl(), sl(), e()), "sock_remote %d %d %s" % (sl(), sl(), e()),
-        "sock_udp_echo %d %d %s" % (sl(), sl(), e()), "sock_close %d %s" % (sl(), e()), "sock_free %d" % sl(), "sock_from_fd %d %s" % (sl(), e()),
+        "sock_udp_echo %d %d %s" % (sl(), sl(), e()), "sock_close %d %s" % (sl(), e()), "sock_io_closed %d %d %s" % (sl(), rng.randrange(7), e()), "dir_create_missing %s" % e(), "dir_remove_missing %s" % e(), "sock_free %d" % sl(), "sock_from_fd %d %s" % (sl(), e()),
         "sem_new %d %d %d %s" % (sl(), rng.randrange(3), rng.choice([0, 0, 1]), e()), "sem_cycle %d %s" % (sl(), e()), "sem_own %d" % sl(), "sem_free %d" % sl(),
         "shm_new %d %d %d %s" % (sl(), rng.randrange(3), rng.choice(SHM_SIZES), e()), "shm_own %d" % sl(), "shm_cycle %d %s" % (sl(), e()), "shm_free %d" % sl(),
         "shmbuf_new %d %d %d %s" % (sl(), 3 + rng.randrange(3), rng.choice(SHM_SIZES), e()), "shmbuf_rw %d %s" % (sl(), e()), "shmbuf_own %d" % sl(),
